@@ -137,3 +137,87 @@ Definition cdb_specs : list (string * cdb_spec) := [
    ATA PASS-THROUGH(12) bytes 5..7  = LBA(7:0) LBA(15:8) LBA(23:16) *)
 Definition sat_lba16_order : list N := [3; 0; 4; 1; 5; 2].
 Definition sat_lba12_order : list N := [0; 1; 2].
+
+(* ------------------------------------------------------------------------------------------------
+   Data phases (C03): how long the data-in buffer must be and what the data-out buffer is, per the
+   standards: ALLOCATION LENGTH; TRANSFER LENGTH x block size; the caller's write data; the
+   parameter list whose length the CDB announces; none. *)
+Inductive xlen := XZero | XArg (x : string) | XMul (x y : string) | XMulK (x : string) (k : N).
+Inductive xout :=
+| OZeros (l : xlen)                   (* a zero buffer of that length (no data-out phase when the length is 0) *)
+| OCaller (x : string)                (* the caller's data, as given *)
+| OCallerUnless (flag x : string)     (* empty when the flag is set (NDOB), else the caller's data *)
+| OParamList                          (* the parameter list composed by the library; PARAMETER LIST LENGTH = its length *)
+| OAta.                               (* SAT rules, see ata_* below *)
+Inductive xin := IZeros (l : xlen) | IAta.
+
+Definition no_data := (OZeros XZero, IZeros XZero).
+Definition in_alloc (x : string) := (OZeros XZero, IZeros (XArg x)).
+
+Definition xfer_specs : list (string * (xout * xin)) := [
+  ("scsi_cdb_atapassthrough12.ATAPassThrough12", (OAta, IAta));
+  ("scsi_cdb_atapassthrough16.ATAPassThrough16", (OAta, IAta));
+  ("scsi_cdb_exchangemedium.ExchangeMedium", no_data);
+  ("scsi_cdb_extended_copy_spc4.ExtendedCopy", (OParamList, IZeros XZero));
+  ("scsi_cdb_extended_copy_spc5.ExtendedCopy", (OParamList, IZeros XZero));
+  ("scsi_cdb_getlbastatus.GetLBAStatus", in_alloc "alloclen");
+  ("scsi_cdb_initelementstatus.InitializeElementStatus", no_data);
+  ("scsi_cdb_initelementstatuswithrange.InitializeElementStatusWithRange", no_data);
+  ("scsi_cdb_inquiry.Inquiry", in_alloc "alloclen");
+  ("scsi_cdb_modesense10.ModeSense10", in_alloc "alloclen");
+  ("scsi_cdb_modesense10.ModeSelect10", (OParamList, IZeros XZero));
+  ("scsi_cdb_modesense6.ModeSense6", in_alloc "alloclen");
+  ("scsi_cdb_modesense6.ModeSelect6", (OParamList, IZeros XZero));
+  ("scsi_cdb_movemedium.MoveMedium", no_data);
+  ("scsi_cdb_openclose_exportimport_element.OpenCloseImportExportElement", no_data);
+  ("scsi_cdb_persistentreservein.PersistentReserveIn", in_alloc "alloclen");
+  ("scsi_cdb_persistentreservein.PersistentReserveInReadKeys", in_alloc "alloclen");
+  ("scsi_cdb_persistentreservein.PersistentReserveInReadReservation", in_alloc "alloclen");
+  ("scsi_cdb_persistentreservein.PersistentReserveInReportCapabilities", in_alloc "alloclen");
+  ("scsi_cdb_persistentreservein.PersistentReserveInReadFullStatus", in_alloc "alloclen");
+  ("scsi_cdb_persistentreserveout.PersistentReserveOut", (OParamList, IZeros XZero));
+  ("scsi_cdb_positiontoelement.PositionToElement", no_data);
+  ("scsi_cdb_preventallow_mediumremoval.PreventAllowMediumRemoval", no_data);
+  ("scsi_cdb_read10.Read10", (OZeros XZero, IZeros (XMul "blocksize" "tl")));
+  ("scsi_cdb_read12.Read12", (OZeros XZero, IZeros (XMul "blocksize" "tl")));
+  ("scsi_cdb_read16.Read16", (OZeros XZero, IZeros (XMul "blocksize" "tl")));
+  (* READ CAPACITY(10) has no allocation length: the device returns 8 bytes; the parameter defaults to 8 *)
+  ("scsi_cdb_readcapacity10.ReadCapacity10", in_alloc "alloclen");
+  ("scsi_cdb_readcapacity16.ReadCapacity16", in_alloc "alloclen");
+  (* READ CD: the sector size depends on the selected fields and, for EXPECTED SECTOR TYPE 0, on the medium;
+     the library reserves 3072 bytes per sector (>= 2352 + 294 + 96 + sync/headers): read as sufficiency *)
+  ("scsi_cdb_readcd.ReadCd", (OZeros XZero, IZeros (XMulK "tl" 3072)));
+  ("scsi_cdb_readdiscinformation.ReadDiscInformation", in_alloc "alloc_len");
+  ("scsi_cdb_readelementstatus.ReadElementStatus", in_alloc "alloclen");
+  ("scsi_cdb_report_luns.ReportLuns", in_alloc "alloclen");
+  ("scsi_cdb_report_priority.ReportPriority", in_alloc "alloclen");
+  ("scsi_cdb_report_target_port_groups.ReportTargetPortGroups", in_alloc "alloclen");
+  ("scsi_cdb_synchronize_cache10.SynchronizeCache10", no_data);
+  ("scsi_cdb_synchronize_cache16.SynchronizeCache16", no_data);
+  ("scsi_cdb_testunitready.TestUnitReady", no_data);
+  ("scsi_cdb_write10.Write10", (OCaller "data", IZeros XZero));
+  ("scsi_cdb_write12.Write12", (OCaller "data", IZeros XZero));
+  ("scsi_cdb_write16.Write16", (OCaller "data", IZeros XZero));
+  ("scsi_cdb_writesame10.WriteSame10", (OCaller "data", IZeros XZero));
+  ("scsi_cdb_writesame16.WriteSame16", (OCallerUnless "ndob" "data", IZeros XZero))
+].
+Definition readcapacity10_default_alloclen : N := 8.
+
+(* SAT-3 transfer rules for ATA PASS-THROUGH: T_LENGTH selects where the count is (0 none, 1 FEATURES,
+   2 COUNT (sector count), 3 the TPSIU / caller-supplied), BYT_BLOK/T_TYPE select the unit (bytes,
+   512-byte blocks, logical-sector blocks), T_DIR the direction (0 to the device, 1 from the device). *)
+Definition ata_unit (byt_blok t_type t_length blocksize : N) : N :=
+  if t_length =? 0 then 0 else
+  if byt_blok =? 0 then 1 else
+  if t_type =? 0 then 512 else blocksize.
+Definition ata_count (t_length fetures count : N) (extra_tl : option N) : N :=
+  match t_length with 1 => fetures | 2 => count | 3 => match extra_tl with Some n => n | None => 0 end | _ => 0 end.
+
+(* ------------------------------------------------------------------------------------------------
+   Refusals (C17): the classes that transfer logical blocks need a block size and must refuse 0. *)
+Definition needs_blocksize : list string := [
+  "scsi_cdb_read10.Read10"; "scsi_cdb_read12.Read12"; "scsi_cdb_read16.Read16";
+  "scsi_cdb_write10.Write10"; "scsi_cdb_write12.Write12"; "scsi_cdb_write16.Write16";
+  "scsi_cdb_writesame10.WriteSame10"].
+(* WRITE SAME(16): unless NDOB is set (no data-out buffer at all) *)
+Definition needs_blocksize_unless : list (string * string) := [("scsi_cdb_writesame16.WriteSame16", "ndob")].
